@@ -10,6 +10,8 @@ import DL.Model.GooFit
 import DL.Gen.Sinks
 import DL.Gen.SpinTable
 import DL.Lemmas.AmpNodes
+import DL.Model.GooFitProg
+import DL.Lemmas.GooFitProg
 namespace DL
 
 /-- when every output call goes through `printer`, the string returned on request is exactly what is
@@ -99,5 +101,518 @@ theorem C19_declared (pol : ResetPolicy) (lookup : String → Option String) (st
           simp only [List.mem_flatten, List.mem_map]
           exact ⟨bs, ⟨(bc, bs), hbm, rfl⟩, by rw [← hnodes]; exact hpl⟩
   · cases h
+
+/-! ### the whole conversion as a program of declarations and uses (`DL/Model/GooFitProg.lean`)
+
+`progCpp` / `progPy` abstract the text returned by `ampgen2goofit` / `ampgen2goofitpy` to the list of its
+statements with the model symbols each declares and uses.  `ProgClosed` (in `DL/Lemmas/GooFitProg.lean`) says
+that every symbol a statement uses is declared by a statement before it; `closedB` decides it
+(`closedB_iff`). -/
+
+/-- the premise under which an output is self-contained, a decidable condition on the input alone:
+    every resonance of a line is in the all-particles set under its programmatic name and is not an
+    event-type particle; the name of a spline resonance is one of the names spline arrays are made for
+    (its `::Spline::` constants are there); when a K-matrix lineshape occurs, parameter rows with the
+    programmatic names `sA_0, sA, s0_prod, s0_scatt` exist and so do rows containing `f_scatt` and `IS_p` -/
+def Supported (i : ProgIn) : Prop := supportedB i = true
+
+instance (i : ProgIn) : Decidable (Supported i) := inferInstanceAs (Decidable (supportedB i = true))
+
+theorem Supported_iff (i : ProgIn) :
+    Supported i ↔ resonancesKnown i = true ∧ splinesKnown i = true ∧ kMatrixKnown i = true := by
+  simp [Supported, supportedB, Bool.and_eq_true, and_assoc]
+
+/-- every model symbol used by the statements of a line is declared in the introduction or in the
+    parameter section -/
+theorem lineCore_uses (i : ProgIn) (hs : Supported i) (ps : List PStmt) (hps : parsStmts i = .ok ps)
+    (ln : LineIn) (hln : ln ∈ i.lines) (ss : List PStmt) (h : lineCore i ln = .ok ss) :
+    ∀ s ∈ ss, ∀ u ∈ s.uses, u ∈ declsOf (introStmts i) ++ declsOf ps := by
+  obtain ⟨hres, hspl, hkm⟩ := (Supported_iff i).mp hs
+  obtain ⟨a, b, c, ha, hb, hc, rfl⟩ := parsStmts_ok i ps hps
+  have hcont : ∀ x ∈ containers, x ∈ declsOf (introStmts i) ++ declsOf (parDecls i ++ a ++ b ++ c) :=
+    fun x hx => List.mem_append_left _ (containers_declared i x hx)
+  unfold lineCore at h
+  split at h
+  · cases h
+  · rename_i amp hamp
+    split at h
+    · simp only [Except.ok.injEq] at h
+      subst h
+      intro s hs' u hu
+      simp only [List.mem_cons, List.not_mem_nil, or_false] at hs'
+      rcases hs' with rfl | rfl | rfl
+      · -- spin-factor block
+        simp only [List.mem_singleton] at hu
+        subst hu
+        exact hcont _ (by decide)
+      · -- line-factor block
+        simp only [List.mem_cons, List.mem_flatMap] at hu
+        rcases hu with rfl | ⟨lo, hlo, hu⟩
+        · exact hcont _ (by decide)
+        · obtain ⟨v, hv, hprog, hname, hkind⟩ := emitAmp_lineBlock _ _ _ _ hamp lo hlo
+          have hvl : v ∈ vertsOfLines i := List.mem_flatMap.mpr ⟨ln, hln, hv⟩
+          -- mass and width variables of the resonance
+          have hMW : lo.prog ++ "_M" ∈ declsOf (introStmts i) ∧ lo.prog ++ "_W" ∈ declsOf (introStmts i) := by
+            have := (List.all_eq_true.mp hres) v hvl
+            obtain ⟨p, hp, hpp⟩ := List.any_eq_true.mp this
+            simp only [Bool.and_eq_true, beq_iff_eq, Bool.not_eq_true'] at hpp
+            rw [hprog, ← hpp.1]
+            exact resonance_declared i p hp hpp.2
+          have hM := List.mem_append_left (declsOf (parDecls i ++ a ++ b ++ c)) hMW.1
+          have hW := List.mem_append_left (declsOf (parDecls i ++ a ++ b ++ c)) hMW.2
+          cases hk : lo.kind with
+          | rbw =>
+            simp only [lsUses, hk, List.mem_cons, List.not_mem_nil, or_false] at hu
+            rcases hu with rfl | rfl
+            · exact hM
+            · exact hW
+          | focus m =>
+            simp only [lsUses, hk, List.mem_cons, List.not_mem_nil, or_false] at hu
+            rcases hu with rfl | rfl
+            · exact hM
+            · exact hW
+          | gspline =>
+            simp only [lsUses, hk, List.mem_cons, List.not_mem_nil, or_false] at hu
+            rcases hu with rfl | rfl | rfl
+            · exact hM
+            · exact hW
+            · have hg : isGSpline v = true := by simp [isGSpline, hkind, hk]
+              have := (List.all_eq_true.mp hspl) v hvl
+              simp only [hg, Bool.not_true, Bool.false_or, List.contains_iff_mem] at this
+              rw [hname]
+              apply List.mem_append_right
+              rw [declsOf_append, declsOf_append, declsOf_append]
+              exact List.mem_append_left _ (List.mem_append_left _ (List.mem_append_right _
+                (splineArrays_declares i a ha v.name this)))
+          | kmatrix pt pole =>
+            have hkv : isKMatrix v = true := by simp [isKMatrix, hkind, hk]
+            have hany : (vertsOfLines i).any isKMatrix = true := List.any_eq_true.mpr ⟨v, hvl, hkv⟩
+            simp only [kMatrixKnown, hany, Bool.not_true, Bool.false_or, Bool.and_eq_true, List.all_eq_true,
+              List.contains_iff_mem] at hkm
+            obtain ⟨⟨h4, hf⟩, hi⟩ := hkm
+            have hpar : ∀ x ∈ ["sA_0", "sA", "s0_prod", "s0_scatt"],
+                x ∈ declsOf (introStmts i) ++ declsOf (parDecls i ++ a ++ b ++ c) := by
+              intro x hx
+              apply List.mem_append_right
+              rw [declsOf_append, declsOf_append, declsOf_append, declsOf_parDecls]
+              exact List.mem_append_left _ (List.mem_append_left _ (List.mem_append_left _ (h4 x hx)))
+            have hfs : "f_scatt" ∈ declsOf (introStmts i) ++ declsOf (parDecls i ++ a ++ b ++ c) := by
+              apply List.mem_append_right
+              rw [declsOf_append, declsOf_append]
+              exact List.mem_append_left _ (List.mem_append_right _ (fScattArray_declares i b hb hf))
+            have his : "IS_poles" ∈ declsOf (introStmts i) ++ declsOf (parDecls i ++ a ++ b ++ c) := by
+              apply List.mem_append_right
+              rw [declsOf_append]
+              exact List.mem_append_right _ (isPolesArray_declares i c hc hi)
+            simp only [lsUses, hk, kMatrixSyms, List.cons_append, List.nil_append, List.mem_cons,
+              List.not_mem_nil, or_false] at hu
+            rcases hu with rfl | rfl | rfl | rfl | rfl | rfl | rfl | rfl
+            · exact hpar _ (by decide)
+            · exact hpar _ (by decide)
+            · exact hpar _ (by decide)
+            · exact hpar _ (by decide)
+            · exact hfs
+            · exact his
+            · exact hM
+            · exact hW
+      · -- amplitude
+        simp only [List.mem_cons, List.not_mem_nil, or_false] at hu
+        rcases hu with rfl | rfl | rfl <;> exact hcont _ (by decide)
+    · cases h
+
+/-- introduction, parameter section and a tail that only uses what those two declare: closed -/
+theorem closed_of_parts (i : ProgIn) (ps : List PStmt) (hps : parsStmts i = .ok ps) (tail : List PStmt)
+    (htail : ∀ s ∈ tail, ∀ u ∈ s.uses, u ∈ declsOf (introStmts i) ++ declsOf ps) :
+    closedB (introStmts i ++ ps ++ tail) = true := by
+  unfold closedB
+  rw [closedFromB_append, closedFromB_append, introStmts_closed i, parsStmts_closed i ps hps]
+  simp only [Bool.true_and, List.nil_append]
+  apply closedFromB_of_uses
+  intro s hs u hu
+  rw [declsOf_append]
+  exact htail s hs u hu
+
+/-- C19 (self-contained, C++): whenever the conversion of a supported input succeeds, every symbol a
+    statement of the output uses is declared by an earlier statement of the same output -/
+theorem C19_closed_cpp (i : ProgIn) (prog : List PStmt) (h : progCpp i = .ok prog) (hs : Supported i) :
+    ProgClosed prog := by
+  rw [← closedB_iff]
+  unfold progCpp at h
+  split at h
+  · rename_i ps ls hps hls
+    simp only [Except.ok.injEq] at h
+    subst h
+    apply closed_of_parts i ps hps
+    intro s hsm u hu
+    obtain ⟨l, hl, hsl⟩ := List.mem_flatten.mp hsm
+    obtain ⟨ln, hln, hfl⟩ := mapM_except_mem _ _ _ hls l hl
+    unfold lineCpp at hfl
+    split at hfl
+    · cases hfl
+    · rename_i ss hss
+      simp only [Except.ok.injEq] at hfl
+      subst hfl
+      rcases List.mem_append.mp hsl with hsl | hsl
+      · exact lineCore_uses i hs ps hps ln hln ss hss s hsl u hu
+      · rw [List.mem_singleton] at hsl
+        subst hsl
+        simp only [List.mem_singleton] at hu
+        subst hu
+        exact List.mem_append_left _ (containers_declared i _ (by decide))
+  · cases h
+  · cases h
+
+/-- C19 (self-contained, Python) -/
+theorem C19_closed_py (i : ProgIn) (prog : List PStmt) (h : progPy i = .ok prog) (hs : Supported i) :
+    ProgClosed prog := by
+  rw [← closedB_iff]
+  unfold progPy at h
+  split at h
+  · rename_i ps ls hps hls
+    simp only [Except.ok.injEq] at h
+    subst h
+    rw [List.append_assoc]
+    apply closed_of_parts i ps hps
+    intro s hsm u hu
+    rcases List.mem_append.mp hsm with hsm | hsm
+    · obtain ⟨l, hl, hsl⟩ := List.mem_flatten.mp hsm
+      obtain ⟨ln, hln, hfl⟩ := mapM_except_mem _ _ _ hls l hl
+      exact lineCore_uses i hs ps hps ln hln l hfl s hsl u hu
+    · rw [List.mem_singleton] at hsm
+      subst hsm
+      simp only [List.mem_singleton] at hu
+      subst hu
+      exact List.mem_append_left _ (containers_declared i _ (by decide))
+  · cases h
+  · cases h
+
+/-! ### both languages declare the same model -/
+
+theorem lineCpp_eq (i : ProgIn) (ln : LineIn) :
+    lineCpp i ln = exMap (· ++ [({ sect := "line.register", declares := [], uses := ["amplitudes_list"] } : PStmt)]) (lineCore i ln) := by
+  unfold lineCpp exMap
+  cases lineCore i ln <;> rfl
+
+theorem lineStmts_append (a b : List PStmt) : lineStmts (a ++ b) = lineStmts a ++ lineStmts b := by
+  simp [lineStmts]
+
+theorem declsOf_registered (r : PStmt) (hr : r.declares = []) : ∀ (ls : List (List PStmt)),
+    declsOf ((ls.map (· ++ [r])).flatten) = declsOf ls.flatten
+  | [] => rfl
+  | l :: ls => by
+    simp only [List.map_cons, List.flatten_cons, declsOf_append, declsOf_registered r hr ls]
+    simp [declsOf, hr]
+
+theorem lineStmts_registered (r : PStmt) (hr : lineStmts [r] = []) : ∀ (ls : List (List PStmt)),
+    lineStmts ((ls.map (· ++ [r])).flatten) = lineStmts ls.flatten
+  | [] => rfl
+  | l :: ls => by
+    simp only [List.map_cons, List.flatten_cons, lineStmts_append, lineStmts_registered r hr ls, hr,
+      List.append_nil]
+
+/-- the two conversions succeed on the same inputs; the symbols they declare are the same, in the same
+    order (as lists, so also as multisets); and the statements written for the lines - spin-factor
+    block, line-factor block, amplitude - are the same statement by statement, in particular they use
+    the same symbols in the same order.  (In the model the groups that the real code writes while
+    iterating a Python `set` are in a fixed order.) -/
+theorem C19_same_decls (i : ProgIn) :
+    (∀ e, progCpp i = .error e ↔ progPy i = .error e) ∧
+    ∀ c p, progCpp i = .ok c → progPy i = .ok p →
+      declsOf c = declsOf p ∧ lineStmts c = lineStmts p ∧
+      (lineStmts c).map (·.uses) = (lineStmts p).map (·.uses) := by
+  have e1 : i.lines.mapM (lineCpp i) =
+      exMap (List.map (· ++ [({ sect := "line.register", declares := [], uses := ["amplitudes_list"] } : PStmt)]))
+        (i.lines.mapM (lineCore i)) := by
+    have : lineCpp i = fun ln => exMap (· ++ [({ sect := "line.register", declares := [], uses := ["amplitudes_list"] } : PStmt)]) (lineCore i ln) :=
+      funext (lineCpp_eq i)
+    rw [this, mapM_except_map]
+  have e2 : i.lines.mapM (linePy i) = i.lines.mapM (lineCore i) := rfl
+  unfold progCpp progPy
+  rw [e1, e2]
+  cases hps : parsStmts i with
+  | error e0 =>
+    refine ⟨fun e => ?_, fun c p hc => ?_⟩
+    · cases i.lines.mapM (lineCore i) <;> simp
+    · cases hl : i.lines.mapM (lineCore i) <;> simp at hc
+  | ok ps =>
+    cases hl : i.lines.mapM (lineCore i) with
+    | error e0 =>
+      refine ⟨fun e => by simp [exMap], fun c p hc => ?_⟩
+      simp [exMap] at hc
+    | ok ls =>
+      refine ⟨fun e => by simp [exMap], fun c p hc hp => ?_⟩
+      simp only [exMap, Except.ok.injEq] at hc hp
+      subst hc
+      subst hp
+      have hd : declsOf (introStmts i ++ ps ++ (ls.map (· ++ [({ sect := "line.register", declares := [], uses := ["amplitudes_list"] } : PStmt)])).flatten)
+          = declsOf (introStmts i ++ ps ++ ls.flatten ++ [({ sect := "outro", declares := [], uses := ["amplitudes_list"] } : PStmt)]) := by
+        rw [declsOf_append, declsOf_append _ [_], declsOf_append _ ls.flatten, declsOf_registered _ rfl]
+        simp [declsOf]
+      have hl' : lineStmts (introStmts i ++ ps ++ (ls.map (· ++ [({ sect := "line.register", declares := [], uses := ["amplitudes_list"] } : PStmt)])).flatten)
+          = lineStmts (introStmts i ++ ps ++ ls.flatten ++ [({ sect := "outro", declares := [], uses := ["amplitudes_list"] } : PStmt)]) := by
+        rw [lineStmts_append, lineStmts_append _ [_], lineStmts_append _ ls.flatten,
+          lineStmts_registered _ (by decide)]
+        have : lineStmts [({ sect := "outro", declares := [], uses := ["amplitudes_list"] } : PStmt)] = [] := by decide
+        rw [this, List.append_nil]
+      exact ⟨hd, hl', by rw [hl']⟩
+
+/-! ### non-vacuity and necessity of the premise, on concrete inputs
+
+`D0 -> K- pi+ pi+ pi-` with a cascade line through a spline resonance,
+`D0{K(1)(1270)bar-[GSpline.EFF]{K*(892)bar0{K-,pi+},pi-},pi+}`, and a two-resonance line,
+`D0{K*(892)bar0{K-,pi+},rho(770)0{pi+,pi-}}`; particle attributes as the `particle` package gives them. -/
+
+theorem not_closed_of_undeclared (p : List PStmt) (s : PStmt) (hs : s ∈ p) (u : String) (hu : u ∈ s.uses)
+    (hn : u ∉ declsOf p) : ¬ ProgClosed p := by
+  intro hc
+  obtain ⟨pre, post, rfl⟩ := List.append_of_mem hs
+  obtain ⟨t, ht, hut⟩ := hc pre s post rfl u hu
+  exact hn ((mem_declsOf _ _).mpr ⟨t, List.mem_append_left _ ht, hut⟩)
+
+theorem ok_of_toOption {ε α : Type} (e : Except ε α) (a : α) (h : e.toOption = some a) : e = .ok a := by
+  cases e with
+  | error _ => cases h
+  | ok b =>
+    simp only [Except.toOption, Option.some.injEq] at h
+    rw [h]
+
+/-- from the evaluated verdict of the checker to the statement about the program -/
+theorem not_closed_of_eval (e : Except EmitErr (List PStmt)) (h : e.toOption.map closedB = some false) :
+    ∃ prog, e = .ok prog ∧ ¬ ProgClosed prog := by
+  cases e with
+  | error _ => cases h
+  | ok prog =>
+    refine ⟨prog, rfl, fun hc => ?_⟩
+    have := (closedB_iff prog).mpr hc
+    simp [Except.toOption, this] at h
+
+namespace C19Ex
+
+def leaf (n prog : String) : GNodeA := .mk n "PseudoScalar" 0 false prog none none []
+def kst : GNodeA := .mk "K*(892)bar0" "Vector" 2 false "Kst_892_0_bar" none none [leaf "K-" "K_minus", leaf "pi+" "pi_plus"]
+def rho : GNodeA := .mk "rho(770)0" "Vector" 2 false "rho_770_0" none none [leaf "pi+" "pi_plus", leaf "pi-" "pi_minus"]
+def k1 : GNodeA := .mk "K(1)(1270)bar-" "Axial" 2 false "K_1_1270_minus" none (some "GSpline.EFF") [kst, leaf "pi-" "pi_minus"]
+def cascade : GNodeA := .mk "D0" "PseudoScalar" 0 true "D_0" none none [k1, leaf "pi+" "pi_plus"]
+def vv : GNodeA := .mk "D0" "PseudoScalar" 0 true "D_0" none none [kst, rho]
+
+def stable : List PartInfo :=
+  [⟨"421", "D0", "D_0"⟩, ⟨"-321", "K-", "K_minus"⟩, ⟨"211", "pi+", "pi_plus"⟩, ⟨"-211", "pi-", "pi_minus"⟩]
+
+def input : ProgIn :=
+  { table := Gen.knownSpinFactors,
+    event := [⟨"421", "D0", "D_0"⟩, ⟨"-321", "K-", "K_minus"⟩, ⟨"211", "pi+", "pi_plus"⟩, ⟨"211", "pi+", "pi_plus"⟩, ⟨"-211", "pi-", "pi_minus"⟩],
+    allParts := stable ++ [⟨"-10323", "K(1)(1270)-", "K_1_1270_minus"⟩, ⟨"-313", "K*(892)~0", "Kst_892_0_bar"⟩, ⟨"113", "rho(770)0", "rho_770_0"⟩],
+    pars := [("K(1)(1270)bar-::Spline::Gamma::1", true, "1.0", "0.0"), ("K(1)(1270)bar-::Spline::Gamma::0", false, "0.5", "0.1"),
+             ("D0_radius", true, "0.0037559", "0.0")],
+    consts := [("K(1)(1270)bar-::Spline::Min", "0.6"), ("K(1)(1270)bar-::Spline::Max", "3.0"), ("K(1)(1270)bar-::Spline::N", "4.0")],
+    lines := [⟨"D0{K(1)(1270)-[GSpline.EFF]{K*(892)~0{K-,pi+},pi-},pi+}", cascade⟩, ⟨"D0{K*(892)~0{K-,pi+},rho(770)0{pi+,pi-}}", vv⟩] }
+
+/-- the C++ program of `input` -/
+def progOfInput : List PStmt :=
+  [⟨"intro.container", ["line_factor_list"], []⟩, ⟨"intro.container", ["spin_factor_list"], []⟩,
+   ⟨"intro.container", ["amplitudes_list"], []⟩,
+   ⟨"intro.const", ["D_0"], []⟩, ⟨"intro.const", ["K_MINUS"], []⟩, ⟨"intro.const", ["PI_PLUS"], []⟩, ⟨"intro.const", ["PI_MINUS"], []⟩,
+   ⟨"intro.res", ["K_1_1270_minus_M"], []⟩, ⟨"intro.res", ["K_1_1270_minus_W"], []⟩,
+   ⟨"intro.res", ["Kst_892_0_bar_M"], []⟩, ⟨"intro.res", ["Kst_892_0_bar_W"], []⟩,
+   ⟨"intro.res", ["rho_770_0_M"], []⟩, ⟨"intro.res", ["rho_770_0_W"], []⟩,
+   ⟨"intro.masses", [], ["D_0", "K_MINUS", "PI_PLUS", "PI_PLUS", "PI_MINUS"]⟩,
+   ⟨"pars.var", ["K_1_1270bar_minus_Spline_Gamma_1"], []⟩, ⟨"pars.var", ["K_1_1270bar_minus_Spline_Gamma__0"], []⟩,
+   ⟨"pars.var", ["D0_radius"], []⟩,
+   ⟨"pars.spline", ["K_1_1270bar_minus_SplineArr"], ["K_1_1270bar_minus_Spline_Gamma__0", "K_1_1270bar_minus_Spline_Gamma_1"]⟩,
+   ⟨"line.spin", [], ["spin_factor_list"]⟩,
+   ⟨"line.ls", [], ["line_factor_list", "K_1_1270_minus_M", "K_1_1270_minus_W", "K_1_1270bar_minus_SplineArr",
+      "Kst_892_0_bar_M", "Kst_892_0_bar_W", "K_1_1270_minus_M", "K_1_1270_minus_W", "K_1_1270bar_minus_SplineArr",
+      "Kst_892_0_bar_M", "Kst_892_0_bar_W"]⟩,
+   ⟨"line.amp", ["D0{K(1)(1270)-[GSpline.EFF]{K*(892)~0{K-,pi+},pi-},pi+}_r", "D0{K(1)(1270)-[GSpline.EFF]{K*(892)~0{K-,pi+},pi-},pi+}_i"],
+      ["amplitudes_list", "line_factor_list", "spin_factor_list"]⟩,
+   ⟨"line.register", [], ["amplitudes_list"]⟩,
+   ⟨"line.spin", [], ["spin_factor_list"]⟩,
+   ⟨"line.ls", [], ["line_factor_list", "Kst_892_0_bar_M", "Kst_892_0_bar_W", "rho_770_0_M", "rho_770_0_W",
+      "Kst_892_0_bar_M", "Kst_892_0_bar_W", "rho_770_0_M", "rho_770_0_W"]⟩,
+   ⟨"line.amp", ["D0{K*(892)~0{K-,pi+},rho(770)0{pi+,pi-}}_r", "D0{K*(892)~0{K-,pi+},rho(770)0{pi+,pi-}}_i"],
+      ["amplitudes_list", "line_factor_list", "spin_factor_list"]⟩,
+   ⟨"line.register", [], ["amplitudes_list"]⟩]
+
+/-- the input meets the premise -/
+example : Supported input := by decide +kernel
+
+/-- its C++ program, evaluated -/
+theorem progCpp_input : progCpp input = .ok progOfInput := ok_of_toOption _ _ (by decide +kernel)
+
+/-- the Python program: the same without the per-line registration, plus the hand-over at the end -/
+theorem progPy_input : progPy input =
+    .ok (progOfInput.filter (·.sect != "line.register") ++ [⟨"outro", [], ["amplitudes_list"]⟩]) :=
+  ok_of_toOption _ _ (by decide +kernel)
+
+/-- it is closed (evaluated; also an instance of `C19_closed_cpp`) -/
+example : ProgClosed progOfInput := by decide +kernel
+example : ProgClosed progOfInput := C19_closed_cpp input _ progCpp_input (by decide +kernel)
+
+/-! each clause of the premise is needed: inputs that violate exactly one clause, convert, and whose
+    output is not closed -/
+
+/-- (1a) the resonance `rho(770)0` was not recorded in the all-particles set: `rho_770_0_M` is used,
+    never declared -/
+def noRho : ProgIn := { input with allParts := stable ++ [⟨"-10323", "K(1)(1270)-", "K_1_1270_minus"⟩, ⟨"-313", "K*(892)~0", "Kst_892_0_bar"⟩] }
+
+example : resonancesKnown noRho = false ∧ splinesKnown noRho = true ∧ kMatrixKnown noRho = true := by decide +kernel
+example : ∃ prog, progCpp noRho = .ok prog ∧ ¬ ProgClosed prog := not_closed_of_eval _ (by decide +kernel)
+example : ∃ prog, progPy noRho = .ok prog ∧ ¬ ProgClosed prog := not_closed_of_eval _ (by decide +kernel)
+
+/-- (1b) the event type names the resonance `K*(892)~0` (it is then written as a mass constant, and
+    no `Kst_892_0_bar_M` / `_W` variable is written) -/
+def kstInEvent : ProgIn := { input with event := input.event ++ [⟨"-313", "K*(892)~0", "Kst_892_0_bar"⟩] }
+
+example : resonancesKnown kstInEvent = false ∧ splinesKnown kstInEvent = true ∧ kMatrixKnown kstInEvent = true := by decide +kernel
+example : ∃ prog, progCpp kstInEvent = .ok prog ∧ ¬ ProgClosed prog := not_closed_of_eval _ (by decide +kernel)
+
+/-- (2) in the model the spline clause does not follow from the presence of the three constants: for a
+    resonance written `R::Spline::Max` the three constants exist, the conversion succeeds, but the array
+    is made for `R` (the suffix is removed from the constant names wherever it occurs).  Real particle
+    names contain no `::`, so this input cannot come out of `read_ampgen`. -/
+def oddK1 : GNodeA := .mk "R::Spline::Max" "Axial" 2 false "K_1_1270_minus" none (some "GSpline.EFF") [kst, leaf "pi-" "pi_minus"]
+def oddSpline : ProgIn :=
+  { input with
+    consts := [("R::Spline::Max::Spline::Min", "0.6"), ("R::Spline::Max::Spline::Max", "3.0"), ("R::Spline::Max::Spline::N", "4.0")],
+    lines := [⟨"odd", .mk "D0" "PseudoScalar" 0 true "D_0" none none [oddK1, leaf "pi+" "pi_plus"]⟩] }
+
+example : resonancesKnown oddSpline = true ∧ splinesKnown oddSpline = false ∧ kMatrixKnown oddSpline = true := by decide +kernel
+example : ∃ prog, progCpp oddSpline = .ok prog ∧ ¬ ProgClosed prog := not_closed_of_eval _ (by decide +kernel)
+
+/-! (3) the K-matrix clause.  `lsKind` reads the tag with `String.splitOn`, which the kernel does not
+    unfold; the tag is evaluated once by rewriting and the rest by the kernel. -/
+
+theorem splitOn_kMatrix : "kMatrix.pole.1".splitOn "." = ["kMatrix", "pole", "1"] := by
+  simp only [String.splitOn]
+  repeat (rw [String.splitOnAux]; simp (config := { decide := true }))
+
+theorem lsKind_kMatrix : lsKind (some "kMatrix.pole.1") = .ok (.kmatrix "1" true) := by
+  simp [lsKind, splitOn_kMatrix]
+
+def pipi : GNodeA := .mk "PiPi00" "Scalar" 0 false "PiPi_0" none (some "kMatrix.pole.1") [leaf "pi+" "pi_plus", leaf "pi-" "pi_minus"]
+def vs : GNodeA := .mk "D0" "PseudoScalar" 0 true "D_0" none none [kst, pipi]
+
+/-- one line `D0{K*(892)bar0{K-,pi+},PiPi00[kMatrix.pole.1]{pi+,pi-}}`, no parameter rows at all -/
+def noKRows : ProgIn :=
+  { input with
+    allParts := stable ++ [⟨"-313", "K*(892)~0", "Kst_892_0_bar"⟩, ⟨"998100", "PiPi0", "PiPi_0"⟩],
+    pars := [], consts := [],
+    lines := [⟨"vs", vs⟩] }
+
+def lsKst (m : String) : LsOut := { kind := .rbw, name := "K*(892)bar0", prog := "Kst_892_0_bar", L := 1, mass := m, radius10 := 15 }
+def lsPiPi (m : String) : LsOut := { kind := .kmatrix "1" true, name := "PiPi00", prog := "PiPi_0", L := 0, mass := m, radius10 := 15 }
+
+theorem linesFor_vs (p : List Nat) (m1 m2 : String) (h : massSymbols .ff1234 p = .ok (m1, m2)) :
+    linesFor .ff1234 [kst, pipi] p = .ok [lsKst m1, lsPiPi m2] := by
+  have e1 : kst.ls = none := rfl
+  have e2 : pipi.ls = some "kMatrix.pole.1" := rfl
+  have e3 : lsKind none = .ok .rbw := rfl
+  have h5 : orbitalL kst = .ok 1 := ok_of_toOption _ _ (by decide +kernel)
+  have h6 : orbitalL pipi = .ok 0 := ok_of_toOption _ _ (by decide +kernel)
+  unfold linesFor
+  rw [h]
+  simp only [List.length_cons, List.length_nil, List.range, List.range.loop, List.zip_cons_cons,
+    List.zip_nil_right, mapM_except_cons, List.mapM_nil]
+  simp [e1, e2, e3, lsKind_kMatrix, h5, h6, pure, Except.pure, lsKst, lsPiPi]
+  exact ⟨⟨rfl, rfl, rfl⟩, rfl, rfl, rfl⟩
+
+theorem emitAmp_vs : ∃ sb, emitAmp Gen.knownSpinFactors vs ["K-", "pi+", "pi+", "pi-"] =
+    .ok { spinBlock := sb, lineBlock := [lsKst "M_12", lsPiPi "M_34", lsKst "M_13", lsPiPi "M_24"], nPerms := 2 } := by
+  have h1 : listStructure (flatNames vs) ["K-", "pi+", "pi+", "pi-"] = .ok [[0, 1, 2, 3], [0, 2, 1, 3]] :=
+    ok_of_toOption _ _ (by decide +kernel)
+  have h2 : spinFactors Gen.knownSpinFactors vs = .ok ["DtoVS_VtoP1P2_StoP3P4", "FF_12_34_L1"] :=
+    ok_of_toOption _ _ (by decide +kernel)
+  have h3 : topology vs = .ok .ff1234 := ok_of_toOption _ _ (by decide +kernel)
+  have h4 : vertexes vs = [kst, pipi] := rfl
+  have m1 : massSymbols .ff1234 [0, 1, 2, 3] = .ok ("M_12", "M_34") := ok_of_toOption _ _ (by decide +kernel)
+  have m2 : massSymbols .ff1234 [0, 2, 1, 3] = .ok ("M_13", "M_24") := ok_of_toOption _ _ (by decide +kernel)
+  unfold emitAmp
+  rw [h1]
+  simp only [h2, h3, h4, mapM_except_cons, List.mapM_nil, linesFor_vs _ _ _ m1, linesFor_vs _ _ _ m2, pure, Except.pure]
+  exact ⟨_, rfl⟩
+
+
+def vsStmts : List PStmt :=
+  [⟨"line.spin", [], ["spin_factor_list"]⟩,
+   ⟨"line.ls", [], ["line_factor_list", "Kst_892_0_bar_M", "Kst_892_0_bar_W",
+      "sA_0", "sA", "s0_prod", "s0_scatt", "f_scatt", "IS_poles", "PiPi_0_M", "PiPi_0_W",
+      "Kst_892_0_bar_M", "Kst_892_0_bar_W",
+      "sA_0", "sA", "s0_prod", "s0_scatt", "f_scatt", "IS_poles", "PiPi_0_M", "PiPi_0_W"]⟩,
+   ⟨"line.amp", ["vs_r", "vs_i"], ["amplitudes_list", "line_factor_list", "spin_factor_list"]⟩]
+
+theorem lineCore_vs (i : ProgIn) (ht : i.table = Gen.knownSpinFactors)
+    (hf : finalNames i = ["K-", "pi+", "pi+", "pi-"]) : lineCore i ⟨"vs", vs⟩ = .ok vsStmts := by
+  obtain ⟨sb, h⟩ := emitAmp_vs
+  unfold lineCore
+  simp only [ht, hf, h]
+  rw [if_pos (by simp [lsConstsOk, lsKst, lsPiPi])]
+  exact ok_of_toOption _ _ (by decide +kernel)
+
+theorem flags_noKRows : resonancesKnown noKRows = true ∧ splinesKnown noKRows = true ∧ kMatrixKnown noKRows = false := by
+  have hv : vertsOfLines noKRows = [kst, pipi] := rfl
+  have e1 : kst.ls = none := rfl
+  have e2 : pipi.ls = some "kMatrix.pole.1" := rfl
+  have e3 : lsKind none = .ok .rbw := rfl
+  refine ⟨by decide +kernel, ?_, ?_⟩
+  · unfold splinesKnown
+    rw [hv]
+    simp [isGSpline, e1, e2, e3, lsKind_kMatrix]
+  · unfold kMatrixKnown
+    rw [hv]
+    have : parNames noKRows = [] := rfl
+    simp [isKMatrix, e1, e2, e3, lsKind_kMatrix, this]
+
+theorem progCpp_noKRows :
+    progCpp noKRows = .ok (introStmts noKRows ++ vsStmts ++ [⟨"line.register", [], ["amplitudes_list"]⟩]) := by
+  have hps : parsStmts noKRows = .ok [] := ok_of_toOption _ _ (by decide +kernel)
+  have hl : noKRows.lines = [⟨"vs", vs⟩] := rfl
+  unfold progCpp
+  rw [hps, hl]
+  simp only [mapM_except_cons, List.mapM_nil, lineCpp, lineCore_vs noKRows rfl (by decide +kernel), pure, Except.pure, List.append_nil,
+    List.flatten_cons, List.flatten_nil, List.append_assoc]
+
+/-- (3) a K-matrix lineshape without the K-matrix parameter rows: the conversion succeeds and the
+    lineshape uses `sA_0` (and `sA`, `s0_prod`, `s0_scatt`, `f_scatt`, `IS_poles`), which nothing declares -/
+theorem noKRows_not_closed : ∃ prog, progCpp noKRows = .ok prog ∧ ¬ ProgClosed prog :=
+  ⟨_, progCpp_noKRows, by decide +kernel⟩
+
+/-- the same line with the K-matrix rows: supported, converts, closed -/
+def withKRows : ProgIn :=
+  { noKRows with
+    pars := [("sA0", true, "-0.15", "0.0"), ("sA", true, "1.0", "0.0"), ("s0_prod", true, "-1.0", "0.0"), ("s0_scatt", true, "-3.9", "0.0"),
+             ("f_scatt1", true, "0.1", "0.0"), ("f_scatt0", true, "0.2", "0.0"), ("IS_p1_KK", true, "-0.5", "0.0"), ("IS_p1_pipi", true, "0.2", "0.0")] }
+
+theorem supported_withKRows : Supported withKRows := by
+  have hv : vertsOfLines withKRows = [kst, pipi] := rfl
+  have e1 : kst.ls = none := rfl
+  have e2 : pipi.ls = some "kMatrix.pole.1" := rfl
+  have e3 : lsKind none = .ok .rbw := rfl
+  rw [Supported_iff]
+  refine ⟨by decide +kernel, ?_, ?_⟩
+  · unfold splinesKnown
+    rw [hv]
+    simp [isGSpline, e1, e2, e3, lsKind_kMatrix]
+  · unfold kMatrixKnown
+    rw [Bool.or_eq_true]
+    exact Or.inr (by decide +kernel)
+
+def kRowStmts : List PStmt :=
+  [⟨"pars.var", ["sA_0"], []⟩, ⟨"pars.var", ["sA"], []⟩, ⟨"pars.var", ["s0_prod"], []⟩, ⟨"pars.var", ["s0_scatt"], []⟩,
+   ⟨"pars.var", ["f_scatt1"], []⟩, ⟨"pars.var", ["f_scatt_0"], []⟩, ⟨"pars.var", ["IS_p1_KK"], []⟩, ⟨"pars.var", ["IS_p1_pipi"], []⟩,
+   ⟨"pars.f_scatt", ["f_scatt"], ["f_scatt_0", "f_scatt1"]⟩, ⟨"pars.IS_poles", ["IS_poles"], ["IS_p1_pipi", "IS_p1_KK"]⟩]
+
+theorem progCpp_withKRows : progCpp withKRows =
+    .ok (introStmts withKRows ++ kRowStmts ++ vsStmts ++ [⟨"line.register", [], ["amplitudes_list"]⟩]) := by
+  have hps : parsStmts withKRows = .ok kRowStmts := ok_of_toOption _ _ (by decide +kernel)
+  have hl : withKRows.lines = [⟨"vs", vs⟩] := rfl
+  unfold progCpp
+  rw [hps, hl]
+  simp only [mapM_except_cons, List.mapM_nil, lineCpp, lineCore_vs withKRows rfl (by decide +kernel), pure,
+    Except.pure, List.append_nil, List.flatten_cons, List.flatten_nil, List.append_assoc]
+
+example : ∃ prog, progCpp withKRows = .ok prog ∧ ProgClosed prog :=
+  ⟨_, progCpp_withKRows, C19_closed_cpp _ _ progCpp_withKRows supported_withKRows⟩
+
+end C19Ex
 
 end DL
